@@ -132,6 +132,29 @@ func c18Conf(c *fw.Case) (o fw.Outcome) {
 	// shuffle the key lines and sprinkle comments: YAML mappings are unordered
 	lines := strings.Split(strings.TrimRight(y, "\n"), "\n")
 	head, keys := lines[:5], lines[5:]
+	// ONE key with a value its kind cannot hold (a quoted or spelled-out number, a value beyond the integer width, a
+	// sequence where a scalar belongs): what that key becomes is not judged, every OTHER key still arrives as written
+	illTyped := ""
+	if r.Intn(7) == 0 {
+		field := map[string]string{"amf_ngap_port": "AmfNgapPort", "stg_ngap_port": "StgNgapPort", "gnb_bitlength": "Gnb_bitlength", "sst": "SST", "ue_number": "UeNumber",
+			"ue_registration": "Test_ue_registation", "ue_pdu": "Test_ue_pdu_establishment", "ue_service": "Test_ue_service", "ue_pdu_release": "Test_ue_pdu_release", "ue_deregistration": "Test_ue_deregistration"}
+		names := []string{"amf_ngap_port", "stg_ngap_port", "gnb_bitlength", "sst", "ue_number", "ue_registration", "ue_pdu", "ue_service", "ue_pdu_release", "ue_deregistration"}
+		key := names[r.Intn(len(names))]
+		raw := pick(r, "\"38412\"", "three", "1.5", "99999999999999999999999", "-1.0e3", "[1]", "0x1G", "12abc")
+		if key == "sst" {
+			raw = pick(r, raw, "2147483648", "-2147483649")
+		}
+		if key == "gnb_bitlength" {
+			raw = pick(r, raw, "-1", "18446744073709551616")
+		}
+		for i, l := range keys {
+			if strings.HasPrefix(strings.TrimSpace(l), key+":") {
+				keys[i] = "  " + key + ": " + raw
+				illTyped = field[key]
+			}
+		}
+		o.Tag("one-ill-typed-key")
+	}
 	r.Shuffle(len(keys), func(i, j int) { keys[i], keys[j] = keys[j], keys[i] })
 	var sb strings.Builder
 	for _, l := range head {
@@ -217,6 +240,9 @@ func c18Conf(c *fw.Case) (o fw.Outcome) {
 		return
 	}
 	for k, w := range want {
+		if k == illTyped {
+			continue
+		}
 		g, ok := got[k]
 		if !ok {
 			o.Fail("conf-field:"+k, "field %s missing from the parsed configuration", k)
